@@ -96,6 +96,30 @@ def header_reader(prog, pv):
                             vs.add(st.rv["variant"])
                 arms[v] = vs
             otherwise = (bi, x.otherwise)
+    if not arms:
+        # delegation: the version byte is converted by a crate function (e.g. `BinaryVersion::try_from(bytes[3])`)
+        for bi, t in b.calls():
+            tgt = prog.bodies.get(t.callee.res) if t.callee.res else None
+            if tgt is None or not t.args:
+                continue
+            a0 = t.args[0]
+            byte_arg = a0.place is not None and (any(e != "*" and e[0] in ("idx", "cidx") for e in a0.place.fields()) or any(
+                kind == "assign" and d.rv["k"] == "use" and d.rv["op"].place is not None and any(e != "*" and e[0] in ("idx", "cidx") for e in d.rv["op"].place.fields())
+                for kind, pos, d in pv.defs(b).get(a0.place.local, [])))
+            if not byte_arg:
+                continue
+            for tbi in sorted(tgt.reach):
+                x = tgt.blocks[tbi].term
+                if x.k == "switch" and x.discr_ty == "u8":
+                    for v, tg in x.targets:
+                        vs = set()
+                        for r in tgt.region((tbi, tg)):
+                            for st in tgt.blocks[r].stmts:
+                                if st.k == "assign" and st.rv["k"] == "agg" and st.rv.get("adt") == BV:
+                                    vs.add(st.rv["variant"])
+                        arms[v] = vs
+                    sw_bb = None
+                    otherwise = None
     # what the no-magic path yields
     v1 = set()
     if magic_call is not None:
